@@ -10,18 +10,19 @@
 using namespace jsoncons;
 
 template <class Json>
-static void run_case(size_t idx, const mj::Value& c, const char* flavour, long& nchecks, bool trace) {
+static void run_case(size_t idx, const mj::Value& c, const char* flavour, long& nchecks, bool trace, bool parsed = false) {
+    auto mk = [&](const mj::Value& w) { return parsed ? jc::build_doc_parsed<Json>(w) : jc::build_doc<Json>(w); };
     auto fail = [&](const char* what, const mj::Value& got) {
         mj::Value m = hz::rec("mismatch"); m.set("idx", (int64_t)idx); m.set("flavour", flavour); m.set("what", what); m.set("got", got); m.set("case", c); hz::emit_mismatch(m);
     };
     {   // apply
-        Json target = jc::build_doc<Json>(c["t"]); Json patch = jc::build_doc<Json>(c["p"]); Json patch0 = patch;
+        Json target = mk(c["t"]); Json patch = mk(c["p"]); Json patch0 = patch;
         mergepatch::apply_merge_patch(target, patch); ++nchecks;
         if (!jc::doc_equals(target, c["r"])) fail("apply_merge_patch", jc::doc_wire(target));
         if (!(jc::doc_wire(patch) == jc::doc_wire(patch0))) fail("patch-modified", jc::doc_wire(patch));
     }
     if (c["nn"].as_bool()) {   // diff law: source = t, target = p
-        Json source = jc::build_doc<Json>(c["t"]); Json target = jc::build_doc<Json>(c["p"]);
+        Json source = mk(c["t"]); Json target = mk(c["p"]);
         Json d = mergepatch::from_diff(source, target); ++nchecks;
         Json s2 = source; mergepatch::apply_merge_patch(s2, d);
         if (!jc::doc_equals(s2, c["p"])) fail("from_diff-roundtrip", jc::doc_wire(s2));
@@ -36,6 +37,8 @@ int main(int argc, char** argv) {
         mj::Value c = mj::parse(line); ++ncases;
         run_case<json>(idx, c, "json", nchecks, true);
         run_case<ojson>(idx, c, "ojson", nchecks, false);
+        run_case<json>(idx, c, "json-parsed", nchecks, false, true);       // documents obtained by parsing their text
+        run_case<ojson>(idx, c, "ojson-parsed", nchecks, false, true);
     });
     mj::Value s = hz::rec("stat"); s.set("cases", (int64_t)ncases); s.set("checks", (int64_t)nchecks); hz::emit(s);
     return 0;
